@@ -427,6 +427,34 @@ pub fn run(ctx: &Ctx) -> Result<Ev, String> {
     if total.classes.get("harness-inconsistent").copied().unwrap_or(0) > 0 {
         return Err(format!("C03 construction inconsistent with its own model in {} cases", total.classes["harness-inconsistent"]));
     }
+    // targets whose distance does not even fit 32 bits cannot be placed by a label: they are written
+    // as numbers and as pc-relative expressions, and they are unreachable — also the ones that are
+    // congruent to a reachable distance modulo 2^32
+    {
+        let ks = kinds();
+        for (ki, m) in ks.iter().enumerate() {
+            let lim: i64 = if m == "rjmp" || m == "rcall" { 2048 } else { 64 };
+            for base in [1i64 << 32, -(1i64 << 32), 1 << 33, 1 << 40, -(1i64 << 48), i64::MAX - 5000, i64::MIN + 5000] {
+                for d in [0i64, 5, -3, lim - 1, -lim] {
+                    let dist = base.wrapping_add(d);
+                    let pfx = if m == "brbs" || m == "brbc" { format!("{}, ", ki % 8) } else { String::new() };
+                    let off = dist.wrapping_add(1); // target = pc + 1 + d, instruction at word 2
+                    let target = off.wrapping_add(2);
+                    for (sp, operand) in [("number", format!("{}", target)), ("pc-relative", if off >= 0 { format!("pc+{}", off) } else { format!("pc-{}", (off as i128).unsigned_abs()) }), ("label-relative", if target >= 0 { format!("c03_far+{}", target) } else { format!("c03_far-{}", (target as i128).unsigned_abs()) })] {
+                        let src = format!("c03_far: nop\nnop\n{} {}{}\nnop\n", m, pfx, operand);
+                        total.eval();
+                        total.class("distance-beyond-32-bits");
+                        total.class("unreachable");
+                        total.nt(fp(&src));
+                        let chk = Check::MustFail { src: src.clone(), token: None };
+                        if let Err(why) = chk.eval() {
+                            total.violation(Violation { sig: format!("c03:{}:far-{}:unreachable-accepted", m, sp), what: format!("`{}`: {}", src.replace('\n', " | "), why), replay: chk.to_json() });
+                        }
+                    }
+                }
+            }
+        }
+    }
     for required in ["within-2-of-a-limit", "filler-two-word", "filler-odd-db", "filler-org-gap", "reachable", "unreachable", "spelling:label-k"] {
         if !total.has_violation() && total.classes.get(required).copied().unwrap_or(0) == 0 {
             return Err(format!("generator degenerate: class {} never produced", required));
